@@ -79,6 +79,8 @@ structure Cache where
   downgrades : Nat := 0
   /-- `FFT_LEN` each thread saw when its test `len > FFT_LEN` sent it on the upgrade path -/
   seen : Array Int := #[]
+  /-- each thread's `old_n == 0`, taken when it passes the re-test (`c1_pass`) -/
+  zs : Array Bool := #[]
   /-- downgrades (re-test failed) although `FFT_LEN` had not grown since the thread's first test: impossible for the pinned
       code (`len > f0` then `¬ len > f1` gives `f0 < f1`); a driver-side oracle, not used by the theorems -/
   spurious : Nat := 0
@@ -92,7 +94,7 @@ structure Cache where
 
 def Cache.new (n : Nat) (warmStart : Bool) : Cache :=
   { st := (if warmStart then warm n else cold n).compact, pcs := Array.replicate n Pc.idle, lens := Array.replicate n 0,
-    seen := Array.replicate n 0 }
+    seen := Array.replicate n 0, zs := Array.replicate n false }
 
 instance : Inhabited Cache := ⟨Cache.new 0 true⟩
 
@@ -126,6 +128,7 @@ def fireOne (c : Cache) (tid : Nat) (l : Label) (evNo : Nat := 0) : Except Strin
                               racedAt := if isRace && c.racedAt == 0 then evNo else c.racedAt }
     let c := match l with
       | .c0_grow => { c with upgrades := c.upgrades + 1, seen := c.seen.set! tid t.flen }
+      | .c1_pass _ => { c with zs := c.zs.set! tid (decide (c.st.flen = 0)) }
       | .c1_fail => { c with downgrades := c.downgrades + 1,
                              spurious := c.spurious + (if c.seen[tid]! < t.flen then 0 else 1) }
       | _ => c
@@ -167,7 +170,7 @@ def stepEvent (c : Cache) (tid : Nat) (ev : Ev) (arg : Int) (o : Obs) (evNo : Na
   let pc := c.pcs[tid]!
   let isRebuildBegin := match ev with | .yld "rebuild-begin" => true | _ => false
   let len := if isRebuildBegin then arg else c.lens[tid]!
-  let labels := allLabels len
+  let labels := allLabels len c.zs[tid]!
   let some path := tauPath labels 5 pc ev
     | throw s!"thread {tid} is at {showPc pc} in the model, where the event cannot happen (neither directly nor after invisible steps)"
   let mut c := c
